@@ -308,6 +308,9 @@ nni_msgq_close(nni_msgq *mq)
 {
 	nni_aio *aio;
 
+	if (mq == NULL) {
+		return;
+	}
 	nni_mtx_lock(&mq->mq_lock);
 	mq->mq_closed = true;
 	// Free the messages orphaned in the queue.
